@@ -251,14 +251,15 @@ def families(ctx, rng, n, part):
     return out
 
 
-def oracle_case(ctx, name, n, part, v, r, key=None):
-    """Evaluate C09 on the real code for one (vector, partition, requested rank)."""
+def oracle_case(ctx, name, n, part, v, r, key=None, svd=None):
+    """Evaluate C09 on the real code for one (vector, partition, requested rank).  `svd`: value of the `svd` argument
+    (None = not passed, i.e. the default 'auto')."""
     from qclib.entanglement import schmidt_decomposition, schmidt_composition
     part = list(part)
     k = len(part)
     rows, cols = 2 ** (n - k), 2 ** k
-    key = key or f"schmidt:{name}:n={n}:P={','.join(map(str, part))}:r={r}"
-    rep = {"call": "schmidt_decomposition/schmidt_composition", "family": name, "n": n, "partition": part, "rank": r,
+    key = key or f"schmidt:{name}:n={n}:P={','.join(map(str, part))}:r={r}" + (f":svd={svd}" if svd else "")
+    rep = {"call": "schmidt_decomposition/schmidt_composition", "family": name, "n": n, "partition": part, "rank": r, "svd": svd,
            "vector_re": [float(x) for x in np.real(v)], "vector_im": [float(x) for x in np.imag(v)]}
     # independent reference
     mref = ref_sep(n, np.asarray(v, dtype=complex), part)
@@ -270,7 +271,10 @@ def oracle_case(ctx, name, n, part, v, r, key=None):
     want = clp2(r if 0 < r < eff else eff)
     vin = np.array(v, copy=True)
     try:
-        rank, u, s, vh = schmidt_decomposition(v, part, rank=r)
+        if svd is None:
+            rank, u, s, vh = schmidt_decomposition(v, part, rank=r)
+        else:
+            rank, u, s, vh = schmidt_decomposition(v, part, rank=r, svd=svd)
         back = schmidt_composition(u, vh, s, part)
     except Exception as ex:   # a valid input must not raise
         ctx.fail(key, f"raised {type(ex).__name__}: {ex}", rep)
@@ -399,6 +403,49 @@ def run_oracle(ctx, nmax=None, nfull=None):
                      "the zero vector is excluded (not a state; the code raises ValueError from log2(0), the model rejects too)")
 
 
+# ---------------------------------------------------------------------------------------------
+# branch coverage of qclib/entanglement.py (tools/branch_audit.py C09)
+# ---------------------------------------------------------------------------------------------
+
+UNREACHED_JUSTIFIED = {
+    "qclib/entanglement.py:_get_iota,generalized_cross_product,meyer_wallach_entanglement,geometric_entanglement": "entanglement measures (Meyer-Wallach, geometric): not part of the Schmidt decomposition / composition",
+    "qclib/entanglement.py:qb_approximation": "randomized QB approximation, not called by schmidt_decomposition",
+}
+
+
+def run_oracle_branches(ctx):
+    """schmidt_decomposition's choice of SVD routine (entanglement.py:218-231).  With the default svd='auto' the randomized
+    SVD is used for n >= 14, rank == 1 and more than round(n/2.5) partition qubits; it is exact (to rounding) when the state
+    has at most rank + 12 Schmidt coefficients, which is what the cases below keep to.  The explicit values 'regular' and
+    'randomized' are exercised with a requested rank equal to the least power of two >= Schmidt rank (the randomized routine
+    returns exactly the requested number of terms, so other requests are outside the statement 'count is a power of two')."""
+    rng = ctx.nprng()
+    n = 14
+    for part in ([0, 2, 4, 6, 8, 10, 12], [13, 1, 2, 3, 5, 8, 9, 11], [0, 3, 6, 7, 9, 13]):
+        side = "auto->randomized" if len(part) > round(n / 2.5) else "auto->regular"
+        for name, spec in (("product-across", [1.0]), ("spectrum3", [0.9, 0.4, 0.15])):
+            v = with_spectrum(rng, n, sorted(part), spec)
+            oracle_case(ctx, name, n, part, v, 1)
+            ctx.count(f"branch:n=14:r=1:{side}")
+        # r = 0 (no truncation) never goes to the randomized routine
+        oracle_case(ctx, "spectrum3", n, part, with_spectrum(rng, n, sorted(part), [0.9, 0.4, 0.15]), 0)
+        ctx.count("branch:n=14:r=0:auto->regular")
+    for n, part in ((2, [0]), (3, [1]), (4, [0, 1]), (4, [3, 0]), (5, [0, 1, 2]), (6, [1, 3, 5]), (6, [5, 4])):
+        mind = min(2 ** len(part), 2 ** (n - len(part)))
+        for spec in ([1.0], [0.8, 0.6], [1.0, 1.0], [0.8, 0.5, 0.33], [0.7, 0.5, 0.4, 0.3]):
+            if len(spec) > mind:
+                continue
+            v = with_spectrum(rng, n, sorted(part), spec)
+            oracle_case(ctx, f"spectrum{len(spec)}", n, part, v, clp2(len(spec)), svd="randomized")
+            ctx.count("branch:svd=randomized")
+            oracle_case(ctx, f"spectrum{len(spec)}", n, part, v, ctx.rng.choice([0, 1, len(spec)]), svd="regular")
+            ctx.count("branch:svd=regular")
+    ctx.notes.append("svd='randomized' named explicitly returns exactly `rank` terms (0 terms for rank = 0, 3 for rank = 3): "
+                     "outside C09's quantifier (vectors, partitions, ranks; the default svd='auto'), exercised only with "
+                     "rank = least power of two >= Schmidt rank; n = 14 cases keep to <= 3 Schmidt coefficients, where the "
+                     "randomized routine chosen by 'auto' is exact")
+
+
 def compare(op, impl, model):
     """All dumped lines are integers / fixed tokens: exact comparison."""
     a = [" ".join(l.split()) for l in impl]
@@ -414,6 +461,7 @@ def compare(op, impl, model):
 def run(ctx):
     run_tie(ctx)
     run_oracle(ctx)
+    run_oracle_branches(ctx)
 
 
 def search(ctx, hints):
@@ -446,4 +494,4 @@ def replay(ctx, payload):
         reshape_case(ctx, r["n"], r["partition"], rng)
     else:
         v = np.array(r["vector_re"]) + 1j * np.array(r["vector_im"])
-        oracle_case(ctx, r.get("family", "replay"), r["n"], r["partition"], v, r["rank"])
+        oracle_case(ctx, r.get("family", "replay"), r["n"], r["partition"], v, r["rank"], svd=r.get("svd"))
